@@ -40,7 +40,45 @@ Supported subset (see ``Fn`` below; everything else raises ``Unsupported``):
                ``re.match(<literal>, s)`` / ``<compiled global>.search(s)`` for the pattern texts the run-time has a
                matcher for, reads of the world outside (``EXTERNAL_READS``/``EXTERNAL_CALLS``/``EXTERNAL_HASATTR``: the
                function then takes the environment table ``PyRt.Env`` as its first parameter)
+Extensions for markers / _parser / metadata / licenses (x3; the handlers are the `x3_*` methods of ``Fn``):
+  recursion    functions that call themselves or each other (and functions with a ``while`` loop) take a fuel argument:
+               ``f__fuel : Nat → …`` (structural recursion on the fuel, a recursive group is a ``mutual`` block; a
+               ``while`` loop is ``for __i in List.range (__fuel + 1)`` plus a flag that says it ended by itself; running
+               out is ``RecursionError``), and the entry point ``f`` starts it from the size of its arguments
+               (``PyRt.fuelOf``; for parser functions from the remaining input, ``PyTok.fuelOf``)
+  statements   ``try/except/else`` (a flag records that the body ran to its end); ``while`` (no ``else``); ``x[k] = e`` and
+               ``x[k] op= e`` on an *owned* list / dict; ``d.update(e)`` on an owned dict; nested mutation ``xs[i].append(e)``
+               when every element of ``xs`` is a list display of its own; ``with tokenizer.enclosing_tokens(a, b, around=…):``
+               (a pair of primitives around the body; no ``return``/``break``/``continue`` inside); an assignment
+               ``msg = f"…"`` whose only uses are arguments of ``raise Cls(msg)`` is dropped (exceptions carry their class only)
+  parameters   ``*args`` (one tuple parameter; call sites pack the extra positional arguments)
+  in place     a function that updates one parameter in place *and* returns it at every ``return``
+               (``_normalize_extra_values``, ``_repair_python_full_version``) is translated as returning the updated value;
+               a call ``f(x)`` on a local rebinds it (``x ← f x``), and writes it back when ``x`` is the element of a list
+               being enumerated (``for i, x in enumerate(xs): f(x)`` → ``xs[i] ← f x``); a loop over a list may only replace
+               the element it is at
+  state        functions whose first parameter is annotated ``Tokenizer`` run in the state monad ``PyTok.TM``: the tokenizer is
+               the state, its methods (``check/read/expect/consume/raise_syntax_error``, ``.position``) are primitives of
+               ``lean/PkgModel/PyTok.lean`` (guarded by a digest of the class's source, ``STATE_GUARD``); the tokenizer may
+               only be used as their receiver or handed on to another such function, and not inside a ``try`` body
+  oracles      inside the modules listed in ``ORACLE_CALLS`` a call of a listed function / constructor / method
+               (``canonicalize_name``, ``Specifier(...)``, ``spec.contains``, ``utils.canonicalize_name``,
+               ``pathlib.PurePosixPath(p).is_absolute()``, ``str.lower`` …) becomes ``PyRt.ext_call ext "<name>" [args]``
+               (arguments bound by the callee's signature); the function then takes the oracle ``ext : PyRt.Oracle``
+  values       dict displays with constant keys, ``d[k]`` / ``d.get`` / ``k in d`` on values known to be dicts (annotation,
+               ``cast("dict…", …)``, display), constant module-level lists / dicts inlined, ``x in {constants}``
+               (``PyRt.contains_set``), membership and ``[k]["id"]`` on tables that are regenerated as data elsewhere
+               (``TABLE_GLOBALS``), a module-level dict of callables (``_operators.get(k)`` yields a reference by key,
+               ``oper(a, b)`` dispatches on it; ``operator.lt`` … and lambdas), named-tuple constructors, ``zip`` of two,
+               ``s.split()``, ``s.strip()`` (Unicode, per module), ``s.translate(_ASCII_LOWER)``, ``pattern.match`` for the
+               pattern texts in ``MATCH_PATTERNS``, ``typing.cast``, ``x.__class__.__name__``, ``hash`` kept symbolic
+               (``SYMBOLIC_HASH``), a method call on a value of statically unknown class dispatched over the tracked classes
+               that define it (``m.serialize()``), ``if not isinstance(x, C): return …`` narrows ``x`` to ``C`` afterwards
 Checks made by the translator (a failure makes the function unsupported):
+  * a local changed inside a ``try`` body (other than by its last simple statement) must not be read in a handler or after
+    a handler that falls through: Lean's ``try … catch`` restores the locals of the ``try`` start;
+  * a short-circuit operand with a lifted sub-term opens its own ``do`` block (an operand is "pure" only if no ``(← …)``
+    occurs in it);
   * a local that may be unassigned when read is read through ``PyRt.bound`` (``UnboundLocalError`` as in CPython);
     hoisted locals start as ``PyVal.unbound``;
   * a list that is mutated in place is *owned*: from the last top-level ``x = <fresh list>`` before its first
@@ -49,7 +87,7 @@ Checks made by the translator (a failure makes the function unsupported):
     return annotation is a scalar;
   * the reflective helper ``Specifier._get_operator`` is evaluated at translation time only while its source text
     is exactly the text recorded in ``PARTIAL_EVAL_GUARDS``;
-  * recursion between translated functions is refused.
+  * recursion through a dispatcher definition is refused.
 Trusted for resolving attribute access: parameter annotations, the return annotations of library helpers and
 ``self.x = C(...)`` in ``__init__`` (they decide which class's MRO is consulted).
 """
@@ -2204,6 +2242,32 @@ class Fn:
         if self.x3_dead_message(st):
             self.emit(ind, "pure ()")
             return True
+        if isinstance(st, ast.Try):
+            # Lean's `try … catch` hands the handler the locals as they were when the `try` began; Python keeps what the body
+            # did before it raised.  Refuse a function in which that difference could be observed.
+            body_ = list(st.body)
+            if body_ and isinstance(body_[-1], (ast.Assign, ast.AnnAssign, ast.AugAssign, ast.Expr, ast.Return)):
+                body_ = body_[:-1]       # what the last simple statement changes is changed only if nothing raised
+            changed = {x for n in _walk_scope(body_) for x in _targets_of(n)}
+            for n in _walk_scope(body_):
+                if isinstance(n, ast.Expr) and isinstance(n.value, ast.Call) and isinstance(n.value.func, ast.Attribute) \
+                        and isinstance(n.value.func.value, ast.Name) and n.value.func.attr in (set(MUTATORS) | OTHER_MUTATORS):
+                    changed.add(n.value.func.value.id)
+                if isinstance(n, ast.For):
+                    changed |= {t.id for t in ast.walk(n.target) if isinstance(t, ast.Name)}
+            def loads(nodes):
+                return {x.id for b in nodes for sub in ([b] if not isinstance(b, ast.Raise) else [])
+                        for x in ast.walk(sub) if isinstance(x, ast.Name) and isinstance(x.ctx, ast.Load)}
+            seen = set()
+            for h in st.handlers:
+                seen |= loads(h.body)
+                if _falls_through(h.body):
+                    after = [n for n in _walk_scope(self.node.body) if getattr(n, "lineno", 0) > st.end_lineno
+                             and isinstance(n, ast.stmt)]
+                    seen |= loads(after)
+            if changed & seen:
+                raise Unsupported("a local changed inside a try block is read on the path through its handler: "
+                                  + ", ".join(sorted(changed & seen)))
         if isinstance(st, ast.Try) and self.x3_uses_state(st.body):
             # a handler would see the tokenizer as it was when the `try` began (state monad), not as Python leaves it
             raise Unsupported(f"the {STATE_CLASS[1]} is used inside a try block")
